@@ -149,3 +149,125 @@ func reflectOnce(ka crypto.PrivateKeyI, c1, c2 net.Conn, cw *sim.CaseWriter) {
 	c2.Close()
 	wg.Wait()
 }
+
+// agedConnectionCase (property C17, replay): a connection that has carried almost 2^32 frames in one direction. The frame counter
+// is part of every nonce; a frame recorded early in the connection's life must still be refused when it is put on the wire again
+// 2^32 frames later (a counter kept in 32 bits would be back at the recorded frame's value). The age is set through a hook
+// (nobody can send four billion frames in a check); everything else is the real Write / Read.
+func agedConnectionCase(r *sim.Rng) {
+	ka, _ := crypto.NewBLS12381PrivateKey()
+	kb, _ := crypto.NewBLS12381PrivateKey()
+	a1, a2 := net.Pipe()
+	b1, b2 := net.Pipe()
+	// A -> B through a tap that records every chunk it forwards (frames have a fixed size) and can inject a recorded frame
+	var mu sync.Mutex
+	var recorded [][]byte
+	inject := make(chan []byte, 1)
+	go func() {
+		defer b1.Close()
+		hdr := make([]byte, 4)
+		if _, err := io.ReadFull(a2, hdr); err != nil {
+			return
+		}
+		n := int(hdr[0])<<24 | int(hdr[1])<<16 | int(hdr[2])<<8 | int(hdr[3])
+		body := make([]byte, n)
+		if _, err := io.ReadFull(a2, body); err != nil {
+			return
+		}
+		if _, err := b1.Write(append(hdr, body...)); err != nil {
+			return
+		}
+		for {
+			fr := make([]byte, frameSize)
+			if _, err := io.ReadFull(a2, fr); err != nil {
+				return
+			}
+			select {
+			case old := <-inject:
+				// the recorded frame goes out INSTEAD of the fresh one
+				fr = old
+			default:
+			}
+			mu.Lock()
+			recorded = append(recorded, append([]byte{}, fr...))
+			mu.Unlock()
+			if _, err := b1.Write(fr); err != nil {
+				return
+			}
+		}
+	}()
+	go func() { _, _ = io.Copy(a2, b1); a2.Close() }() // B -> A untouched
+	var ea, eb *p2p.EncryptedConn
+	var e1, e2 lib.ErrorI
+	var wg sync.WaitGroup
+	wg.Add(2)
+	go func() { defer wg.Done(); ea, e1 = p2p.NewHandshake(a1, meta(), ka) }()
+	go func() { defer wg.Done(); eb, e2 = p2p.NewHandshake(b2, meta(), kb) }()
+	wg.Wait()
+	if e1 != nil || e2 != nil {
+		st.Hand["aged-connection:handshake-failed"]++
+		return
+	}
+	defer a1.Close()
+	defer b2.Close()
+	readOne := func(n int) ([]byte, error) {
+		buf := make([]byte, n)
+		_ = b2.SetReadDeadline(time.Now().Add(10 * time.Second))
+		_, err := io.ReadFull(eb, buf)
+		return buf, err
+	}
+	// the frame that will be replayed: the first data frame A sends
+	c0, _ := ea.VerifFrameCounters()
+	secret := []byte("pay 100 to mallory - " + sim.Hex(r.Bytes(8)))
+	mu.Lock()
+	before := len(recorded)
+	mu.Unlock()
+	if _, err := ea.Write(secret); err != nil {
+		return
+	}
+	if got, err := readOne(len(secret)); err != nil || !bytes.Equal(got, secret) {
+		st.Hand["aged-connection:first-frame-not-delivered"]++
+		return
+	}
+	mu.Lock()
+	if len(recorded) <= before {
+		mu.Unlock()
+		return
+	}
+	old := recorded[before]
+	mu.Unlock()
+	// age both ends consistently: A has sent, and B has received, 2^32 - 1 frames
+	_, recvA := ea.VerifFrameCounters()
+	sentB, _ := eb.VerifFrameCounters()
+	ea.VerifSetFrameCounters(0xFFFFFFFF, recvA)
+	eb.VerifSetFrameCounters(sentB, 0xFFFFFFFF)
+	// c0+1 fresh frames bring a 32-bit counter back to the recorded frame's value
+	for i := uint64(0); i <= c0; i++ {
+		m := []byte(fmt.Sprintf("fresh-%d", i))
+		if _, err := ea.Write(m); err != nil {
+			return
+		}
+		if got, err := readOne(len(m)); err != nil || !bytes.Equal(got, m) {
+			st.Hand["aged-connection:fresh-frame-not-delivered"]++
+			return
+		}
+	}
+	// the next frame on the wire is the recording
+	inject <- old
+	filler := make([]byte, len(secret))
+	if _, err := ea.Write(filler); err != nil {
+		return
+	}
+	got, err := readOne(len(secret))
+	st.Cases++
+	if err == nil && bytes.Equal(got, secret) {
+		sim.Direct(outDirG, map[string]any{"finding": "frame-replayed-after-counter-wrap", "kind": "a frame recorded early in a connection's life is accepted again 2^32 frames later: its old plaintext is delivered as fresh data",
+			"frame_position": c0})
+		st.Hand["aged-connection:REPLAY-DELIVERED"]++
+	} else if err == nil {
+		sim.Direct(outDirG, map[string]any{"finding": "frame-replayed-after-counter-wrap", "kind": "after a recorded frame was put on the wire in place of a fresh one the reader delivered data without an error"})
+		st.Hand["aged-connection:data-without-error"]++
+	} else {
+		st.Hand["aged-connection:replay-refused"]++
+	}
+}
